@@ -86,6 +86,25 @@ def has_raw_tf(r):
     return False
 
 
+def str_tf_among_siblings(r, top=True):
+    """An un-expanded tagifiable that is ALSO a plain string is written as that string where the writer takes the one-text-child
+    shortcut (the only visible child of an element); anywhere else - next to siblings, or directly in a list - it is an un-expanded
+    object like any other and asking for markup raises."""
+    if r["k"] == "tf":
+        return top and r.get("as") == "str"
+    if r["k"] not in ("tag", "list"):
+        return False
+    kids = gen.flat_children(r)
+    vis = [c for c in kids if c["k"] not in ("meta", "dep", "headc") and not (c["k"] == "tf" and c.get("as") == "meta")]
+    for c in kids:
+        if c["k"] == "tf" and c.get("as") == "str":
+            if r["k"] == "list" or len(vis) != 1:
+                return True
+        elif c["k"] in ("tag", "list") and str_tf_among_siblings(c, False):
+            return True
+    return False
+
+
 def dep_vals(deps):
     return [(d.name, str(d.version), fp(d)) for d in deps]
 
@@ -183,7 +202,7 @@ def check_case(ctx, r):
         out = live.get_html_string()
     except Exception as e:
         raised = e
-    if has_raw_tf(r):
+    if has_raw_tf(r) or str_tf_among_siblings(r):
         if raised is None:
             ctx.violation("unexpanded-object-rendered", "get_html_string() returned markup for a tree holding an un-expanded object", dict(wit, output=out[:600]))
             return False
@@ -364,6 +383,17 @@ def _run(ctx):
              [{"k": "tf", "ret": "one", "c": [html]}], [{"k": "tf", "ret": "list", "c": [html]}, empty], [empty, empty],
              [{"k": "tf", "as": "stored", "ret": "one", "c": [html]}], [{"k": "tf", "as": "stored", "ret": "one", "c": [body]}],
              [{"k": "tf", "as": "sublist", "ret": "list", "c": [body]}], [{"k": "tf", "as": "stored", "ret": "list", "c": [html]}]]
+    # the tagifiable IS the root (rendered directly): an element subclass that expands to something else, with and without payload
+    dep_ = {"k": "dep", "name": "da", "version": "1.0", "script": [{"src": "root.js"}]}
+    for j, payload in enumerate(([], [{"k": "text", "s": "only text;"}], [gen.TAG("p", {"k": "text", "s": "pt;"}), dep_], [dep_], [{"k": "tf", "ret": "list", "c": [dep_, gen.TAG("i", ws=False)]}])):
+        for as_ in ("tagsub",):
+            root = {"k": "tf", "ret": "list", "c": payload}
+            if as_:
+                root["as"] = as_
+            if ctx.mine(j):
+                ctx.guard(check_case, ctx, root, witness={"recipe": root})
+                ctx.case(root, nontrivial=True)
+                ctx.count("tagifiable_roots")
     for i, c in enumerate(roots):
         if ctx.mine(i):
             root = {"k": "list", "t": "taglist", "c": c}
